@@ -223,7 +223,7 @@ Definition g_unplan_vehicle (gi : ginput) (s : state) (v : nat) : state * result
       | inr k =>
           let s2 := fold_left (fun st u => with_colls st (coll_add u (st_planned st)) (coll_remove u (st_unplanned st)) (st_fixed st)) units s1 in
           match g_is_feasible gi (with_colls s (st_planned s2) (st_unplanned s2) (st_fixed s2)) v idx old_stops true with
-          | inl s3 => (s3, Done)          (* Unplan returns true although nothing was removed *)
+          | inl s3 => (s3, Rejected k)    (* since fix a023d6b: the rolled-back un-plan answers false *)
           | inr _ => (s2, UndoFailed)
           end
       end
